@@ -809,4 +809,80 @@ theorem pooled_buffer_witness :
     (runCalls c [.encode [1], .encode [2], .decode 0] {}).msgs[2]? = some (some (.ok [1])) := by
   decide
 
+/-! ## strict codecs over the history of one message object: an encoding is a function of the
+current value -/
+
+/-- **Every encode call returns the encoding of the object's current value**: whatever was done
+with the object before (`pre`: encode calls through any entry point, `proto.Size`, changes of
+nested or top-level fields, `proto.Clone`) and whatever follows (`post`), the encode call at
+position `pre.length` returned `Marshal` of the value the caller's changes have produced. -/
+theorem hist_encode_current {M} (c : Codec M) (pre post : List (HStep M)) (v : M) :
+    (runHist c (pre ++ [.encode] ++ post) { value := v }).outs[pre.length]? =
+      some (some (strictMarshal c (valueAfter pre v))) := by
+  have hl : (runHist c pre { value := v }).outs.length = pre.length := by
+    rw [runHist_outs_length]; simp
+  rw [runHist_append, runHist_outs_keeps]
+  · rw [runHist_append]
+    simp only [runHist, histStep]
+    rw [List.getElem?_append_right (by omega), hl, runHist_value]
+    simp
+  · rw [runHist_append, runHist_outs_length, hl]; simp
+
+/-- **History independence**: the result of an encode call is the one the same call returns when
+nothing but the caller's changes happened to the object before - every earlier encode call,
+every `proto.Size` and every `proto.Clone` can be removed from the history without changing it
+(so nothing such a call leaves in the object, a cached size for instance, may be consulted). -/
+theorem hist_independent {M} (c : Codec M) (pre post : List (HStep M)) (v : M) :
+    (runHist c (pre ++ [.encode] ++ post) { value := v }).outs[pre.length]? =
+      (runHist c (mutationsOf pre ++ [.encode]) { value := v }).outs[(mutationsOf pre).length]? := by
+  have h := hist_encode_current c (mutationsOf pre) [] v
+  rw [List.append_nil] at h
+  rw [hist_encode_current, h, valueAfter_mutationsOf]
+
+/-- Two histories that leave the object with the same value yield the same encoding. -/
+theorem hist_same_value_same_encoding {M} (c : Codec M) (pre₁ pre₂ post₁ post₂ : List (HStep M)) (v₁ v₂ : M)
+    (hv : valueAfter pre₁ v₁ = valueAfter pre₂ v₂) :
+    (runHist c (pre₁ ++ [.encode] ++ post₁) { value := v₁ }).outs[pre₁.length]? =
+      (runHist c (pre₂ ++ [.encode] ++ post₂) { value := v₂ }).outs[pre₂.length]? := by
+  rw [hist_encode_current, hist_encode_current, hv]
+
+example : valueAfter [HStep.encode, .mutate (· + 1), .size] 1 = valueAfter [HStep.mutate (· * 2), .clone] (1 : Nat) := by decide
+
+/-- **Decode what they encode, at every point of an object's history**: for a round-tripping
+marshaller the bytes an encode call returned decode strictly to the value the object had at that
+call - also when the object was encoded or sized before and changed since. -/
+theorem hist_codec_roundtrip {M} (c : Codec M) (h : c.RoundTrips) (pre post : List (HStep M)) (v : M) (d : Bytes)
+    (hd : (runHist c (pre ++ [.encode] ++ post) { value := v }).outs[pre.length]? = some (some (some d))) :
+    strictUnmarshal c d = .ok (valueAfter pre v) := by
+  rw [hist_encode_current] at hd
+  have hm : strictMarshal c (valueAfter pre v) = some d := by simpa using hd
+  exact strict_codec_roundtrip c h _ d hm
+
+example :
+    let c : Codec Bytes := { enc := fun m => some (0 :: m),
+                             dec := fun d => match d with | 0 :: m => some (m, []) | _ => none }
+    (runHist c ([.encode, .mutate (fun m => 7 :: m), .size] ++ [.encode] ++ [.clone]) { value := [1] }).outs[3]? =
+      some (some (some [0, 7, 1])) := by decide
+
+/-- … and an encode call never fails on a value the marshaller encodes, whatever the history. -/
+theorem hist_encode_succeeds {M} (c : Codec M) (pre post : List (HStep M)) (v : M) (d : Bytes)
+    (he : c.enc (valueAfter pre v) = some d) :
+    (runHist c (pre ++ [.encode] ++ post) { value := v }).outs[pre.length]? = some (some (some d)) := by
+  rw [hist_encode_current, strictMarshal, he]
+
+example :
+    let c : Codec Bytes := { enc := fun m => some (0 :: m), dec := fun _ => none }
+    c.enc (valueAfter [HStep.size, .mutate (fun m => 7 :: m)] [1]) = some [0, 7, 1] := by decide
+
+/-- Witness that the statements discriminate: were the nested sizes an earlier call computed kept
+in the object and trusted by a later encode call (`UseCachedSize`), the history encode - change -
+encode would fail at its second call, while a fresh copy of the same value encodes. -/
+theorem cached_size_witness :
+    let c : Codec Bytes := { enc := fun m => some (0 :: m),
+                             dec := fun d => match d with | 0 :: m => some (m, []) | _ => none }
+    (runHistCached c [.encode, .mutate (fun m => 7 :: m), .encode] { value := [1] }).outs[2]? = some (some none) ∧
+    (runHistCached c [.encode, .mutate (fun m => 7 :: m), .clone, .encode] { value := [1] }).outs[3]? = some (some (some [0, 7, 1])) ∧
+    (runHist c [.encode, .mutate (fun m => 7 :: m), .encode] { value := [1] }).outs[2]? = some (some (some [0, 7, 1])) := by
+  decide
+
 end ConfModel.Props.C18
